@@ -12,8 +12,9 @@
                           dimension), or no row while x is neither a dimension of the group nor relationship-defining
      consistent u D G K recs   every entry of recs is rec_ok *)
 From Coq Require Import String List Bool Arith ZArith.
-From V Require Import Model.Universe Model.Group Model.DataId Model.DataIdCheck Gen.Universes
-  Proofs.GroupProofs Proofs.DataIdProofs Proofs.DataIdProofsExpand Proofs.DataIdProofsShipped Proofs.DataIdProofsErrors Proofs.DataIdProofsUnion.
+From V Require Import Model.Universe Model.Group Model.DataId Model.DataIdX Model.DataIdCheck Gen.Universes
+  Proofs.GroupProofs Proofs.DataIdProofs Proofs.DataIdProofsExpand Proofs.DataIdProofsShipped Proofs.DataIdProofsErrors Proofs.DataIdProofsUnion
+  Proofs.DataIdProofsX Proofs.DataIdProofsX2 Proofs.DataIdProofsX3 Proofs.DataIdProofsOldA Proofs.DataIdProofsX4.
 Import ListNotations.
 Open Scope string_scope.
 Open Scope list_scope.
@@ -250,3 +251,249 @@ Example union_commutes_example :
     /\ union u_current a b = Ok c1 /\ union u_current b a = Ok c2 /\ dc_eq c1 c2 = true
     /\ dmapping c1 = [("instrument", VStr "Cam"); ("detector", VInt 1); ("visit", VInt 5)].
 Proof. exact ex_union_commutes_p. Qed.
+
+(* ======================================================================================================================
+   Wave 5: union totality, expandDataId as a whole, the `records=` argument, the older shipped universes, alternate keys.
+   New vocabulary
+     recs_cover d            a data ID with attached records is full and has a record entry for every element of its group
+     comb_imp_closedb u      no join table (combination) of u has implied dimensions
+     minimal_required_ok u   every element's minimal group requires exactly the element's own required dimensions
+     expand_data_id_x        CODE-EXACT expandDataId: key values go through `standardize(keys, element.minimal_group)` as in
+                             the code, `records=` supplied (Model/DataIdX.v); the correspondence run evaluates THIS function
+     supported_universes     [u_current; u_old2 .. u_old7] (regenerated from dimensions.yaml / old_dimensions/*.yaml)
+     rec_ok_r                like rec_ok, but an entry for which a record was supplied IS the supplied one
+   ====================================================================================================================== *)
+
+(* ---- union is total ---- *)
+Theorem union_total : forall u la lb a b, wf_universe u = true ->
+  mkgroup u la = GOk (dgroup a) -> mkgroup u lb = GOk (dgroup b) -> has_required a -> has_required b ->
+  recs_cover a -> recs_cover b -> exists c, union u a b = Ok c.
+Proof. exact union_total_p. Qed.
+Print Assumptions union_total.
+
+(* without records the result is characterised completely *)
+Theorem union_total_plain : forall u la lb a b, wf_universe u = true ->
+  mkgroup u la = GOk (dgroup a) -> mkgroup u lb = GOk (dgroup b) -> drecs a = None -> drecs b = None ->
+  has_required a -> has_required b ->
+  exists c G, union u a b = Ok c /\ gunion u (dgroup a) (dgroup b) = GOk G /\ dgroup c = G /\ has_required c /\
+    (forall k v, dc_get c k = Some v -> dc_get b k = Some v \/ dc_get a k = Some v) /\
+    (forall k, In k (grequired G) -> exists v, dc_get c k = Some v).
+Proof. exact union_total_plain_p. Qed.
+Print Assumptions union_total_plain.
+
+(* ---- Registry.expandDataId as ONE function: standardize, the walk, the final standardize(keys).expanded(records) ---- *)
+(* SOUND: the returned data ID has the standardized dimensions, keeps every standardized value, is full, carries one record
+   entry per element of the lookup order, and every entry is the stored row under THE RETURNED values, with implied values
+   equal to the returned values (or the empty data ID) *)
+Theorem expand_data_id_sound : forall u D dims mp kw df d,
+  wf_universe u = true -> dims_selfb u = true -> comb_imp_closedb u = true ->
+  (forall s, standardize u dims mp kw df = Ok s -> lookup_okb u (dgroup s) = true) ->
+  expand_data_id u D dims mp kw df = Ok d ->
+  exists s, standardize u dims mp kw df = Ok s /\ dgroup d = dgroup s /\
+    (forall k v, dc_get s k = Some v -> dc_get d k = Some v) /\
+    (is_nil (gnames (dgroup d)) = true /\ d = s \/
+     is_nil (gnames (dgroup d)) = false /\ dfull d = true /\
+     exists recs, drecs d = Some recs /\ glookup (dgroup d) = GOk (map fst recs) /\
+       consistent u D (dgroup d) (dmapping d) recs).
+Proof. exact expand_data_id_sound_p. Qed.
+Print Assumptions expand_data_id_sound.
+
+(* COMPLETE: a consistent full assignment K extending the standardized data ID exists => expandDataId returns a full data ID
+   with records whose every value is K's (so the answer does not depend on the lookup order) *)
+Theorem expand_data_id_complete : forall u D dims mp kw df s K,
+  wf_universe u = true -> dims_selfb u = true ->
+  standardize u dims mp kw df = Ok s -> lookup_okb u (dgroup s) = true ->
+  extends K (dmapping s) -> (forall n, In n (gnames (dgroup s)) -> present K n = true) ->
+  (forall x, In x (gelements (dgroup s)) -> exists ro, rec_ok u D (dgroup s) K x ro) ->
+  exists d, expand_data_id u D dims mp kw df = Ok d /\ dgroup d = dgroup s /\ dfull d = true /\ has_recs d = true /\
+    forall k v, dc_get d k = Some v -> aget K k = Some v.
+Proof. exact expand_data_id_complete_p. Qed.
+Print Assumptions expand_data_id_complete.
+
+(* ---- the code-exact model and the model of the theorems above are the same function where minimal_required_ok ---- *)
+Theorem code_exact_model_agrees : forall u D given dims mp kw df, minimal_required_ok u = true ->
+  expand_data_id_x u D given dims mp kw df = expand_data_id_r u D given dims mp kw df.
+Proof. exact expand_data_id_x_eq_p. Qed.
+Print Assumptions code_exact_model_agrees.
+
+Theorem code_exact_model_agrees_plain : forall u D dims mp kw df, minimal_required_ok u = true ->
+  expand_data_id_x u D [] dims mp kw df = expand_data_id u D dims mp kw df.
+Proof. exact expand_data_id_x_plain_p. Qed.
+Print Assumptions code_exact_model_agrees_plain.
+
+Theorem code_exact_model_agrees_dc : forall u D given dims d kw df, minimal_required_ok u = true ->
+  expand_data_id_dc_x u D given dims d kw df = expand_data_id_dc u D given dims d kw df.
+Proof. exact expand_data_id_dc_x_eq_p. Qed.
+Print Assumptions code_exact_model_agrees_dc.
+
+(* ---- every supported shipped universe (current, daf_butler 2..7; <= 13 non-skypix dimensions each), no hypothesis left,
+        code-exact model ---- *)
+Theorem supported_universe_facts :
+  forallb universe_facts supported_universes = true /\
+  forallb (fun u => Nat.leb (length (nonskypix_dimension_names u)) 13) shipped_universes = true.
+Proof. exact (conj supported_facts_p bound_old_p). Qed.
+Print Assumptions supported_universe_facts.
+
+Theorem expand_data_id_sound_shipped : forall u D l mp kw df d, In u supported_universes ->
+  In l (all_subsets (nonskypix_dimension_names u)) ->
+  expand_data_id_x u D [] (Some l) mp kw df = Ok d ->
+  exists s, standardize u (Some l) mp kw df = Ok s /\ dgroup d = dgroup s /\
+    (forall k v, dc_get s k = Some v -> dc_get d k = Some v) /\
+    (is_nil (gnames (dgroup d)) = true /\ d = s \/
+     is_nil (gnames (dgroup d)) = false /\ dfull d = true /\
+     exists recs, drecs d = Some recs /\ glookup (dgroup d) = GOk (map fst recs) /\
+       consistent u D (dgroup d) (dmapping d) recs).
+Proof. exact expand_data_id_sound_shipped_p. Qed.
+Print Assumptions expand_data_id_sound_shipped.
+
+Theorem expand_data_id_complete_shipped : forall u D l mp kw df s K, In u supported_universes ->
+  In l (all_subsets (nonskypix_dimension_names u)) ->
+  standardize u (Some l) mp kw df = Ok s ->
+  extends K (dmapping s) -> (forall n, In n (gnames (dgroup s)) -> present K n = true) ->
+  (forall x, In x (gelements (dgroup s)) -> exists ro, rec_ok u D (dgroup s) K x ro) ->
+  exists d, expand_data_id_x u D [] (Some l) mp kw df = Ok d /\ dgroup d = dgroup s /\ dfull d = true /\ has_recs d = true /\
+    forall k v, dc_get d k = Some v -> aget K k = Some v.
+Proof. exact expand_data_id_complete_shipped_p. Qed.
+Print Assumptions expand_data_id_complete_shipped.
+
+Theorem expand_data_id_errors_documented_shipped : forall u D l mp kw df e, In u supported_universes ->
+  In l (all_subsets (nonskypix_dimension_names u)) ->
+  expand_data_id_x u D [] (Some l) mp kw df = Err e -> documented e = true.
+Proof. exact expand_data_id_err_shipped_p. Qed.
+Print Assumptions expand_data_id_errors_documented_shipped.
+
+(* ---- daf_butler universes 0 and 1: completeness is FALSE for the code (finding F-C13-old-universe-minimal-group).
+        {instrument: Cam, exposure: 50, visit_system: 0} has consistent stored rows (ex_db0: the visit_definition row
+        (Cam, 0, 50) -> visit 5), yet expandDataId raises DimensionNameError "no value for required dimension visit": the
+        fetch key of visit_definition goes through its minimal group, which requires `visit`.  The model that reads the key
+        values directly (Model/DataId.expand) succeeds on the same input. ---- *)
+Theorem old_universes_differ :
+  wf_universe u_old0 = true /\ wf_universe u_old1 = true /\ dims_selfb u_old0 = true /\ dims_selfb u_old1 = true /\
+  comb_imp_closedb u_old0 = false /\ comb_imp_closedb u_old1 = false /\
+  minimal_required_ok u_old0 = false /\ minimal_required_ok u_old1 = false.
+Proof. exact old01_facts_p. Qed.
+Print Assumptions old_universes_differ.
+
+Theorem expand_complete_refuted_universe0 :
+  exists s, standardize u_old0 None ex_id0 [] [] = Ok s /\ lookup_okb u_old0 (dgroup s) = true /\
+    extends ex_K0 (dmapping s) /\ (forall n, In n (gnames (dgroup s)) -> present ex_K0 n = true) /\
+    (forall x, In x (gelements (dgroup s)) -> exists ro, rec_ok u_old0 ex_db0 (dgroup s) ex_K0 x ro) /\
+    expand_data_id_x u_old0 ex_db0 [] None ex_id0 [] [] = Err EDimensionName /\
+    (exists d, expand_data_id u_old0 ex_db0 None ex_id0 [] [] = Ok d).
+Proof. exact expand_complete_refuted_universe0_p. Qed.
+Print Assumptions expand_complete_refuted_universe0.
+
+Theorem expand_complete_refuted_universe1 :
+  exists s, standardize u_old1 None ex_id0 [] [] = Ok s /\ lookup_okb u_old1 (dgroup s) = true /\
+    extends ex_K0 (dmapping s) /\ (forall n, In n (gnames (dgroup s)) -> present ex_K0 n = true) /\
+    (forall x, In x (gelements (dgroup s)) -> exists ro, rec_ok u_old1 ex_db0 (dgroup s) ex_K0 x ro) /\
+    expand_data_id_x u_old1 ex_db0 [] None ex_id0 [] [] = Err EDimensionName /\
+    (exists d, expand_data_id u_old1 ex_db0 None ex_id0 [] [] = Ok d).
+Proof. exact expand_complete_refuted_universe1_p. Qed.
+Print Assumptions expand_complete_refuted_universe1.
+
+(* ---- the `records=` argument ---- *)
+Theorem expand_records_none : forall u D dims mp kw df,
+  expand_data_id_r u D [] dims mp kw df = expand_data_id u D dims mp kw df.
+Proof. exact expand_data_id_r_nil_p. Qed.
+Print Assumptions expand_records_none.
+
+(* SOUND with supplied records: a supplied entry is attached as is and its implied values ARE the final values; every
+   other entry is the stored row *)
+Theorem expand_records_sound : forall u D G given k0 k1 recs, expand_keys_r u D G given k0 = Ok (k1, recs) ->
+  extends k1 k0 /\ glookup G = GOk (map fst recs) /\ forall x ro, In (x, ro) recs -> rec_ok_r u D G given k1 x ro.
+Proof. exact expand_keys_r_sound_p. Qed.
+Print Assumptions expand_records_sound.
+
+Theorem expand_records_rejects_contradiction : forall u D G given k0 x e r d v w,
+  (exists order, glookup G = GOk order /\ In x order) ->
+  find_elem u x = Some e -> aget given x = Some (Some r) ->
+  In (d, v) (zip_pad (eimp e) (rimp r)) -> aget k0 d = Some w -> w <> v ->
+  forall res, expand_keys_r u D G given k0 <> Ok res.
+Proof. exact expand_r_rejects_p. Qed.
+Print Assumptions expand_records_rejects_contradiction.
+
+(* supplied records that are what the walk fetches change nothing *)
+Theorem expand_records_agree : forall u D given dims mp kw df s k1 recs,
+  standardize u dims mp kw df = Ok s -> expand_keys u D (dgroup s) (dmapping s) = Ok (k1, recs) ->
+  (forall x g ro, aget given x = Some g -> In (x, ro) recs -> ro = g) ->
+  expand_data_id_r u D given dims mp kw df = expand_data_id u D dims mp kw df.
+Proof. exact expand_data_id_r_agree_p. Qed.
+Print Assumptions expand_records_agree.
+
+(* ---- alternate keys (_rewrite_data_id): a lookup with a uniqueness condition ---- *)
+Theorem altkey_rewrite_sound : forall u F known dn cs k', has_key known dn = false -> rewrite_one u F known dn cs = RWOk k' ->
+  exists e r, find_elem u dn = Some e /\ is_dimension e = true /\ In r (frows F dn) /\ row_matches e dn cs known r = true /\
+    (forall r', In r' (frows F dn) -> row_matches e dn cs known r' = true -> r' = r) /\
+    k' = known ++ [(dn, last (fkey r) VNone)].
+Proof. exact rewrite_one_sound_p. Qed.
+Print Assumptions altkey_rewrite_sound.
+
+Theorem altkey_rewrite_complete : forall u F known dn cs e r, find_elem u dn = Some e -> is_dimension e = true ->
+  has_key known dn = false -> NoDup (frows F dn) -> In r (frows F dn) -> row_matches e dn cs known r = true ->
+  (forall r', In r' (frows F dn) -> row_matches e dn cs known r' = true -> r' = r) ->
+  rewrite_one u F known dn cs = RWOk (known ++ [(dn, last (fkey r) VNone)]).
+Proof. exact rewrite_one_complete_p. Qed.
+Print Assumptions altkey_rewrite_complete.
+
+Theorem altkey_rewrite_refuses : forall u F known dn cs e, find_elem u dn = Some e -> is_dimension e = true ->
+  has_key known dn = false ->
+  (matching_rows u F dn cs known = [] -> rewrite_one u F known dn cs = RWErr RWNoMatch) /\
+  (forall r1 r2 rest, matching_rows u F dn cs known = r1 :: r2 :: rest -> rewrite_one u F known dn cs = RWErr RWAmbiguous).
+Proof. exact rewrite_one_refuses_p. Qed.
+Print Assumptions altkey_rewrite_refuses.
+
+Theorem altkey_explicit_checked : forall u F known dn cs k', has_key known dn = true -> rewrite_one u F known dn cs = RWOk k' ->
+  k' = known /\ forall r, explicit_rows u F dn known = [r] -> fields_agree r cs = true.
+Proof. exact rewrite_one_explicit_p. Qed.
+Print Assumptions altkey_explicit_checked.
+
+Theorem altkey_keeps_given_values : forall u F by_record known k', rewrite_all u F known by_record = RWOk k' -> extends k' known.
+Proof. exact rewrite_all_extends_p. Qed.
+Print Assumptions altkey_keeps_given_values.
+
+(* the alternate spelling and the primary-key spelling are THE SAME data ID *)
+Theorem altkey_same_data_id : forall u F known dn cs e r l, find_elem u dn = Some e -> is_dimension e = true ->
+  has_key known dn = false -> NoDup (frows F dn) -> In r (frows F dn) -> row_matches e dn cs known r = true ->
+  (forall r', In r' (frows F dn) -> row_matches e dn cs known r' = true -> r' = r) ->
+  exists k', rewrite_one u F known dn cs = RWOk k' /\
+    standardize u (Some l) k' [] [] = standardize u (Some l) ((dn, last (fkey r) VNone) :: known) [] [].
+Proof. exact altkey_same_data_id_p. Qed.
+Print Assumptions altkey_same_data_id.
+
+(* ---- worked examples ---- *)
+Example supplied_record_same_answer :
+  expand_data_id_x u_current ex_db [("visit", Some visit5)] None [("instrument", VStr "Cam"); ("visit", VInt 5)] [] []
+  = expand_data_id_x u_current ex_db [] None [("instrument", VStr "Cam"); ("visit", VInt 5)] [] [].
+Proof. exact ex_records_same_p. Qed.
+
+(* a supplied record is used AS IS (its own key is never compared with the data ID): the caller's responsibility *)
+Example supplied_record_key_unchecked :
+  summary (expand_data_id_x u_current ex_db [] None [("instrument", VStr "Cam"); ("visit", VInt 6)] [] []) = Err EDataIdValue /\
+  summary (expand_data_id_x u_current ex_db [("visit", Some visit5)] None [("instrument", VStr "Cam"); ("visit", VInt 6)] [] [])
+  = Ok ([("instrument", VStr "Cam"); ("visit", VInt 6); ("band", VStr "g"); ("day_obs", VInt 20240101);
+         ("physical_filter", VStr "pf1")], true).
+Proof. exact ex_records_key_unchecked_p. Qed.
+
+Example supplied_record_contradiction_refused :
+  summary (expand_data_id_x u_current ex_db [("visit", Some (mkRecord [VStr "Cam"; VInt 5] [VInt 20240101; VStr "pf2"]))] None
+             [("instrument", VStr "Cam"); ("visit", VInt 5); ("band", VStr "g"); ("day_obs", VInt 20240101);
+              ("physical_filter", VStr "pf1")] [] []) = Err EInconsistent.
+Proof. exact ex_records_contradiction_p. Qed.
+
+Example union_of_expanded_ids :
+  exists a b c, expand_data_id u_current ex_db None [("instrument", VStr "Cam"); ("visit", VInt 5)] [] [] = Ok a
+    /\ expand_data_id u_current ex_db None [("instrument", VStr "Cam"); ("exposure", VInt 50)] [] [] = Ok b
+    /\ recs_cover a /\ recs_cover b /\ has_required a /\ has_required b
+    /\ union u_current a b = Ok c /\ dfull c = true /\ has_recs c = false
+    /\ gnames (dgroup c) = ["band"; "instrument"; "day_obs"; "group"; "physical_filter"; "exposure"; "visit"].
+Proof. exact ex_union_expanded_p. Qed.
+
+Example alternate_key_examples :
+  rewrite_all u_current ex_fdb [("instrument", VStr "Cam")] [("detector", [("full_name", VStr "det1")])]
+    = RWOk [("instrument", VStr "Cam"); ("detector", VInt 1)]
+  /\ rewrite_all u_current ex_fdb [] [("detector", [("full_name", VStr "det1")])] = RWErr RWAmbiguous
+  /\ rewrite_all u_current ex_fdb [("instrument", VStr "Cam")] [("detector", [("full_name", VStr "nope")])] = RWErr RWNoMatch
+  /\ rewrite_all u_current ex_fdb [("instrument", VStr "Cam"); ("detector", VInt 0)] [("detector", [("full_name", VStr "det1")])]
+     = RWErr RWInconsistent.
+Proof. exact ex_altkey_p. Qed.
